@@ -38,6 +38,9 @@ type W struct {
 	DBRP int   `json:"dbrp"`
 	M    int   `json:"m"`
 	V    int64 `json:"v"`
+	// NoV: the point does not carry the field v that the where() conditions refer to (it carries
+	// u instead): a condition that cannot be evaluated does not select the point
+	NoV bool `json:"nov,omitempty"`
 }
 
 type Op struct {
@@ -108,7 +111,8 @@ func gen(t *rapid.T) Case {
 			op = Op{Kind: "write", Batch: rapid.Bool().Draw(t, "batch")}
 			k := rapid.IntRange(1, 8).Draw(t, "npts")
 			for j := 0; j < k; j++ {
-				op.Pts = append(op.Pts, W{DBRP: rapid.IntRange(0, 3).Draw(t, "dbrp"), M: rapid.IntRange(0, 2).Draw(t, "m"), V: int64(rapid.IntRange(0, 9).Draw(t, "v"))})
+				op.Pts = append(op.Pts, W{DBRP: rapid.IntRange(0, 3).Draw(t, "dbrp"), M: rapid.IntRange(0, 2).Draw(t, "m"), V: int64(rapid.IntRange(0, 9).Draw(t, "v")),
+					NoV: rapid.IntRange(0, 5).Draw(t, "nov") == 0})
 			}
 		}
 		op.NoQuiet = rapid.IntRange(0, 3).Draw(t, "noquiet") == 0
@@ -151,6 +155,7 @@ type written struct {
 	dbrp int
 	m    string
 	v    int64
+	noV  bool
 }
 
 func (d TaskDef) declares(w written) bool {
@@ -173,7 +178,7 @@ func (f From) matches(w written) bool {
 	if f.M != "" && f.M != w.m {
 		return false
 	}
-	if f.Where >= 0 && !(w.v > int64(f.Where)) {
+	if f.Where >= 0 && (w.noV || !(w.v > int64(f.Where))) {
 		return false
 	}
 	return true
@@ -328,14 +333,18 @@ func run(c Case, cc *kit.Case) {
 				var pts []imodels.Point
 				for _, w := range op.Pts[i:j] {
 					n := int64(len(all))
+					fields := map[string]interface{}{"n": n, "v": w.V}
+					if w.NoV {
+						fields = map[string]interface{}{"n": n, "u": w.V}
+					}
 					p, err := imodels.NewPoint(measurements[w.M], imodels.NewTags(map[string]string{"src": "c02"}),
-						map[string]interface{}{"n": n, "v": w.V}, time.Unix(1_500_000_000+n, 0).UTC())
+						fields, time.Unix(1_500_000_000+n, 0).UTC())
 					if err != nil {
 						cc.Fail("harness/point", "NewPoint: %v", err)
 						return
 					}
 					pts = append(pts, p)
-					all = append(all, written{n: n, dbrp: w.DBRP, m: measurements[w.M], v: w.V})
+					all = append(all, written{n: n, dbrp: w.DBRP, m: measurements[w.M], v: w.V, noV: w.NoV})
 				}
 				d := dbrpUniverse[op.Pts[i].DBRP]
 				if err := tm.WritePoints(d.Database, d.RetentionPolicy, imodels.ConsistencyLevelAll, pts); err != nil {
@@ -501,7 +510,7 @@ var assumptions = []string{
 	"points are written through TaskMaster.WritePoints (what the HTTP write handler and the UDP/other listeners call); measurement names are non-empty (line protocol cannot produce an empty one)",
 	"a point written after StartTask returned is forked after the subscription; a point is known to be forked once the universal observer task's sink has seen it (forkPoint serves all subscribed tasks in one call)",
 	"for a task stopped on the way, points still in the ingest buffer when the stop is requested may go either way (C07 covers the stopping task itself); with quiescence observed before the stop they must all be delivered",
-	"where() filters compare an integer field that every point carries",
+	"where() filters compare the integer field v; one point in six carries u instead: a condition that cannot be evaluated for a point does not select it",
 }
 
 func TestRouting(t *testing.T) {
